@@ -12,12 +12,15 @@ import vlib
 
 PID = "C19"
 LEVEL = "exploration"
-BIN = "/verif/harness/target-repo/debug/corrosion"
+TARGET = os.path.join(vlib.HARNESS, "target-repo")
+BIN = os.environ.get("VERIF_CORROSION_BIN") or os.path.join(TARGET, "debug", "corrosion")
 
 
 def build_bin():
     t0 = time.time()
-    env = dict(os.environ, CARGO_TARGET_DIR="/verif/harness/target-repo", CARGO_NET_OFFLINE="true", CARGO_PROFILE_DEV_DEBUG="0")
+    if os.environ.get("VERIF_CORROSION_BIN"):
+        return
+    env = dict(os.environ, CARGO_TARGET_DIR=TARGET, CARGO_NET_OFFLINE="true", CARGO_PROFILE_DEV_DEBUG="0")
     p = subprocess.run(["cargo", "build", "--offline", "-p", "klukai", "--bin", "corrosion"], cwd="/repo", env=env, stdout=subprocess.PIPE, stderr=subprocess.STDOUT, text=True)
     if p.returncode != 0:
         raise vlib.ToolError("building the corrosion binary failed:\n" + p.stdout[-3000:])
